@@ -19,7 +19,7 @@ namespace sim
    constexpr int NODES = 8;        // wired named rules node<0..NODES-1>
    constexpr int MINIS = 3;        // wired rules of the restricted sub-grammar mini<0..MINIS-1>
    constexpr std::size_t GUARD = 64;  // poisoned bytes on both sides of the memory arena
-   constexpr std::size_t ARENA = 4096;
+   constexpr std::size_t ARENA = 20480;
 
    // ---------------------------------------------------------------- capabilities of an instantiation set
    constexpr unsigned CAP_MEMORY = 1;    // whole input in memory (everything)
@@ -30,6 +30,7 @@ namespace sim
    constexpr unsigned CAP_PLAINCTL = 32; // control is sim_control / ctl2 themselves (limit_* raise through Control< limit_* >)
    constexpr unsigned CAP_REMATCH = 64;  // rematch / minus sub-inputs are instantiated for this set
    constexpr unsigned CAP_CTLSWITCH = 128;  // change_control / control<> allowed
+   constexpr unsigned CAP_TREEOPS = 512;    // extra tree-shape ops (compiled into the parse tree set only)
    constexpr unsigned CAP_PRIVSTATE = 256;  // rules that hand private states to sub-rules (raw_string) compile under this control
 
    // ---------------------------------------------------------------- events
@@ -60,12 +61,13 @@ namespace sim
       SOFT,          // soft bounds violation (x = what, y = value)
       TOP_BEGIN,     // before parse()
       TOP_END,       // after parse(): flag R = result; flags EXCF if exception (x = exc index)
+      IOERR,         // a reader-level call of a stock stream input ended with an error and no data (x = errno)
       N_KINDS
    };
 
    inline const char* ev_name( Ev k )
    {
-      static const char* n[] = { "ENTER", "EXIT", "EXC", "START", "SUCCESS", "FAILURE", "UNWIND", "RAISE", "RAISE_NESTED", "APPLY", "APPLY0", "A_APPLY", "A_APPLY0", "X_APPLY", "S_CTOR", "S_SUCCESS", "S_DTOR", "READ", "REQUIRE", "DISCARD", "SET_END", "FAULT", "SOFT", "TOP_BEGIN", "TOP_END" };
+      static const char* n[] = { "ENTER", "EXIT", "EXC", "START", "SUCCESS", "FAILURE", "UNWIND", "RAISE", "RAISE_NESTED", "APPLY", "APPLY0", "A_APPLY", "A_APPLY0", "X_APPLY", "S_CTOR", "S_SUCCESS", "S_DTOR", "READ", "REQUIRE", "DISCARD", "SET_END", "FAULT", "SOFT", "TOP_BEGIN", "TOP_END", "IOERR" };
       return n[ int( k ) ];
    }
 
@@ -159,6 +161,7 @@ namespace sim
       SITE_STATE_SUCCESS,
       SITE_READER,         // reader call throws (I/O error)
       SITE_ALLOC,          // k-th allocation made while library code runs
+      SITE_SYSCALL,        // k-th open / fopen / fstat / mmap / fseek made by a file input fails with an errno
       N_SITES
    };
 
@@ -260,6 +263,7 @@ namespace sim
       std::uint32_t max_open_depth = 0;
       bool aborted = false;
       bool in_library = false;    // true while PEGTL code may allocate (ALLOC_FAIL window)
+      bool io_active = false;     // true while a file / stream input of an I/O job is being built or parsed (syscall wrappers act)
       std::uint32_t asan_hits = 0;
       std::uint32_t last_end = NOPOS;  // cursor offset of the latest event with a cursor (for apply0 veto)
       std::uint32_t cur_atom = 0;      // atom selected by the innermost node / mini
@@ -280,6 +284,7 @@ namespace sim
          max_open_depth = 0;
          aborted = false;
          in_library = false;
+         io_active = false;
          asan_hits = 0;
          last_end = NOPOS;
          cur_atom = 0;
